@@ -42,7 +42,7 @@ CLAIMED = {
  "C01": dict(
    technique="Coq proof (inversion of the model's acceptance into declarative facts) + whole-validator vs Coq model on scenarios and single-reference faults + retargeting sweep of shipped schemas",
    text="Theorems C01_refs_resolve, C01_action_promise_resolves, C01_ids_distinct, C01_paths_declared, C01_path_segment_declared (Properties/C01.v): acceptance by the model (Model/Rules.v) implies that the reference at each of the 17 positions denotes exactly one declared entity of the allowed kind and that attribute paths follow declared attributes. The model's verdict is compared with the implementation's on conformant scenarios and on dangling / wrong-kind / undeclared-path faults at every position; the property's second sentence is additionally checked directly on every single-reference retargeting of the shipped valid schemas.",
-   note="Trusted: coqc kernel + vm_compute (case files); scenario generator/renderer/mutators (harness/scenario.py, mutators.py); Model/Rules.v is tied to the Python by differential testing bounded by the generator, not by proof about the Python; T1 default-value table. Known finding: path extension on references that take no path is accepted.",
+   note="Trusted: coqc kernel + vm_compute (case files); scenario generator/renderer/mutators (harness/scenario.py, mutators.py); Model/Rules.v is tied to the Python by differential testing bounded by the generator, not by proof about the Python; T1 default-value table.",
    design="6/C01"),
  "C02": dict(
    technique="Coq proof (DFS with shared visited set sound and complete w.r.t. the declarative dependency relation; acceptance implies acyclicity) + whole-validator vs Coq model on all digraphs over <=3 actions in 4 encodings, random scenarios and cycle mutants",
